@@ -131,3 +131,22 @@ package keys_and_cert
 //@     assert(e1 == nil)
 //@   }
 //@ }
+
+// C14: NewKeysAndCert on the components of any parsed KeysAndCert succeeds,
+// the result passes Validate() and serialises to the same bytes, which parse
+// back with an empty remainder (everything executed from the bodies).
+//@ option C14_KeysAndCertCtorRoundTrips nocontract *
+//@ lemma C14_KeysAndCertCtorRoundTrips(data []byte) {
+//@   k, rem, err := ReadKeysAndCert(data)
+//@   if err == nil {
+//@     k2, e := NewKeysAndCert(k.KeyCertificate, k.ReceivingPublic, k.Padding, k.SigningPublic)
+//@     assert(e == nil)
+//@     assert(k2.Validate() == nil)
+//@     b, e1 := k.Bytes()
+//@     b2, e2 := k2.Bytes()
+//@     assert(e1 == nil && e2 == nil && seqeq(b2, b))
+//@     assert(seqeq(b, data[:len(data)-len(rem)]))
+//@     _, rem3, e3 := ReadKeysAndCert(b2)
+//@     assert(e3 == nil && len(rem3) == 0)
+//@   }
+//@ }
